@@ -72,9 +72,13 @@ def _worker_died_obs() -> Obs:
 
 
 def shutdown_pool() -> None:
+    """End of a check: all jobs are done, so waiting is short - and it keeps the executor's exit hook from finding a closed pipe."""
     global _POOL
     if _POOL is not None:
-        _POOL.shutdown(wait=False, cancel_futures=True)
+        try:
+            _POOL.shutdown(wait=True, cancel_futures=True)
+        except Exception:  # noqa: BLE001  (a broken pool has nothing left to wait for)
+            pass
         _POOL = None
 
 
@@ -85,6 +89,7 @@ def run_jobs(jobs: Iterable[tuple[Any, Callable, tuple]], on_result: Callable[[A
     retry: list[tuple[Any, Callable, tuple, int]] = []
     it = iter(jobs)
     exhausted = False
+    submit_failures = 0
     while True:
         if not retry and not any(p[3] for p in pending.values()):
             max_inflight = base_inflight
@@ -100,7 +105,19 @@ def run_jobs(jobs: Iterable[tuple[Any, Callable, tuple]], on_result: Callable[[A
                 except StopIteration:
                     exhausted = True
                     continue
-            pending[_submit(fn, *args)] = (tag, fn, args, n)
+            try:
+                pending[_submit(fn, *args)] = (tag, fn, args, n)
+            except BrokenProcessPool:
+                # a worker died (e.g. out of memory) while nothing was being collected: everything in flight is lost with the
+                # pool; run it again on a fresh pool with fewer jobs in flight
+                retry.append((tag, fn, args, n))
+                for f in list(pending):
+                    retry.append(pending.pop(f))
+                _recycle(wait_=False)
+                submit_failures += 1
+                if submit_failures > 20:
+                    raise
+                max_inflight = max(1, NWORKERS // 2)
         if not pending:
             if _need_recycle():
                 _recycle()
